@@ -190,6 +190,14 @@ func TestC03(t *testing.T) {
 		})
 	}
 
+	rec.Regress(t, func(raw json.RawMessage) *Violation {
+		var c fsCase
+		if json.Unmarshal(raw, &c) != nil {
+			return nil
+		}
+		v, _ := runC03(c)
+		return v
+	})
 	t.Run("grid", func(t *testing.T) {
 		workloads := []string{"w1"}
 		maxFrame := 3
